@@ -104,6 +104,23 @@ def respond(falcon, resp, plan, dg):
         resp.content_type = 'application/octet-stream'
     elif kind == 'empty':
         resp.set_header('X-Digest-Path', urllib.parse.quote(dg['path']))
+    elif kind == 'statusclass':
+        # status classes x body sources x explicit/implicit content type x raised vs assigned
+        resp.set_header('X-Digest-Path', urllib.parse.quote(dg['path']))
+        if plan['ctype'] is not None:
+            resp.content_type = plan['ctype']
+        for attr_name, tag, value in plan['sources']:
+            setattr(resp, attr_name, body_value(tag, value))
+        st = status_value(plan['status_form'])
+        if plan['via'] == 'raise-status':
+            text = None
+            for attr_name, tag, value in plan['sources']:
+                if attr_name == 'text' and tag == 'str':
+                    text = value
+            raise falcon.HTTPStatus(st, headers={'X-Raised': '1'}, text=text)
+        if plan['via'] == 'raise-error':
+            raise falcon.HTTPError(st, title='t', description='d')
+        resp.status = st
     elif kind == 'renderfail':
         # rendering the responder's answer fails AFTER the responder returned: the app hands the
         # exception to the error handlers and must send what THEY composed
@@ -116,6 +133,24 @@ def respond(falcon, resp, plan, dg):
         resp.set_header('X-Digest-Path', urllib.parse.quote(dg['path']))
         for attr_name, tag, value in plan['sources']:
             setattr(resp, attr_name, body_value(tag, value))
+
+
+STATUS_FORMS = [['int', 100], ['int', 101], ['int', 200], ['int', 201], ['int', 204], ['int', 301], ['int', 304],
+                ['int', 400], ['int', 404], ['int', 500], ['int', 599], ['str', '299 Odd'], ['str', '204 No Content'],
+                ['str', '101 Switching Protocols'], ['str', '304 Not Modified'], ['enum', 100], ['enum', 204],
+                ['enum', 404], ['str', '100 Continue'], ['str', '204 Nothing here']]
+
+
+def status_value(form):
+    import http
+    kind, v = form
+    if kind == 'enum':
+        return http.HTTPStatus(v)
+    return v
+
+
+def status_code_of(form):
+    return int(str(form[1])[:3])
 
 
 class Opaque:
@@ -469,8 +504,17 @@ def gen_sources(rng):
 
 def gen_plan(rng):
     kind = rng.choice(['media', 'text', 'data', 'empty', 'notfound', 'redirect', 'badrequest', 'text', 'media',
-                       'bodies', 'bodies', 'bodies', 'bodies', 'renderfail', 'renderfail', 'renderfail'])
+                       'bodies', 'bodies', 'bodies', 'bodies', 'renderfail', 'renderfail', 'renderfail',
+                       'statusclass', 'statusclass', 'statusclass', 'statusclass', 'statusclass'])
     extra = {}
+    if kind == 'statusclass':
+        form = rng.choice(STATUS_FORMS)
+        code = status_code_of(form)
+        via = rng.choice(['assign', 'assign', 'raise-status'] + (['raise-error'] if code >= 400 else []))
+        extra = {'status_form': form, 'via': via, 'method': rng.choice(['GET', 'HEAD', 'POST']),
+                 'ctype': rng.choice([None, None, 'text/plain', 'application/json', 'application/x-custom']),
+                 'sources': gen_sources(rng) if rng.random() < 0.7 else []}
+        return dict(extra, kind=kind, **plan_common(rng, kind))
     if kind == 'renderfail':
         extra = {'how': rng.choice(['unserializable', 'unserializable-nested', 'unserializable-set', 'no-handler',
                                     'no-handler']),
@@ -705,6 +749,11 @@ def main(ctx):
         r = gen_req(rng)
         state['plan'] = plan = gen_plan(rng)
         custom = bool(plan.get('custom'))
+        if plan['kind'] == 'statusclass':
+            r['method'] = plan['method']
+            if r['method'] != 'POST':
+                r['body'] = b''
+            ctx.count('status-%d-%s-%s' % (status_code_of(plan['status_form']), plan['method'], plan['via']))
         if plan['kind'] == 'renderfail':
             # the Accept header decides which handler serializes a default error response
             r['headers'] = [h for h in r['headers'] if h[0].lower() != 'accept']
@@ -790,6 +839,10 @@ def req_json(r):
 def compare(dw, do, rw, ro):
     diffs = []
     if 'raised' in rw or 'raised' in ro:
+        if 'Content-Type header found in a' in str(ro.get('raised')) + str(rw.get('raised')):
+            # wsgiref.validate (used by falcon.testing on WSGI) rejects an explicit Content-Type that the
+            # RESPONDER put on a 204/304: the lint's opinion about the application, not an asymmetry
+            return diffs
         if rw != ro:
             diffs.append(('raised', rw.get('raised'), ro.get('raised')))
         return diffs
